@@ -1141,6 +1141,51 @@ def run(chk):
     if found < 4:
         raise core.AnalysisBroken("RstState::add_actions: only %d of max_run/run_count/min_wait/last_run_elapsed found" % found)
 
+    # ---- C05.phase: the gas and the water half of the group reconstruction are images of each other
+    r_ph = chk.rule("C05.phase", "in Group.cpp the code that rebuilds gas injection from a restart record and the code that rebuilds water injection are the same text under gas<->water (every field read for one phase has its counterpart read for the other)", floor=3)
+    gx = chk.facts(["/repo/opm/input/eclipse/Schedule/Group/Group.cpp"], files_re="^/repo/opm/input/eclipse/Schedule/Group/Group.cpp$")
+
+    def field_map(f):
+        """what is set -> RstGroup fields it is set from (order of statements and local names do not matter)"""
+        out = {}
+        for i_ in f.get("inits") or []:
+            if not i_.get("implicit"):
+                fl = sorted({x["n"] for x in walk(i_["init"]) if x["k"] == "Mem" and (x.get("cls") or "").endswith("RstGroup")})
+                out[i_.get("member")] = fl
+        if f.get("body"):
+            for st_ in all_statements(f["body"]):
+                fl = sorted({x["n"] for x in walk(st_) if x["k"] == "Mem" and (x.get("cls") or "").endswith("RstGroup")})
+                if not fl:
+                    continue
+                tg = [x["n"] for x in walk(st_) if x["k"] == "Mem" and strip(x.get("b") or {}).get("k") == "Ref" and strip(x["b"])["n"] == "injection"]
+                out.setdefault(tg[0] if tg else "<other>", [])
+                out[tg[0] if tg else "<other>"] = sorted(set(out[tg[0] if tg else "<other>"]) | set(fl))
+        return out
+
+    def to_water(t):
+        for a_, b_ in (("ginj_", "winj_"), ("_gas_", "_water_"), ("gas_", "water_")):
+            t = t.replace(a_, b_)
+        return t
+    gas_fns = [f for f in gx.fns if "GasInjectionLimits" in (f.get("sig") or "") + (f.get("cls") or "") and (f.get("body") or f.get("inits"))]
+    pairs_found = 0
+    for g in gas_fns:
+        want_cls = (g.get("cls") or "").replace("GasInjectionLimits", "WaterInjectionLimits")
+        want_sig = (g.get("sig") or "").replace("GasInjectionLimits", "WaterInjectionLimits")
+        sib = [f for f in gx.fns if f["n"].replace("GasInjectionLimits", "WaterInjectionLimits") == g["n"].replace("GasInjectionLimits", "WaterInjectionLimits") and f is not g and (f.get("cls") or "") == want_cls and (f.get("sig") or "") == want_sig]
+        if not sib:
+            continue
+        pairs_found += 1
+        ga, wa = field_map(g), field_map(sib[0])
+        a_txt = {k_: [to_water(x) for x in v_] for k_, v_ in ga.items()}
+        b_txt = wa
+        key = "%s ~ %s" % (g["q"].split("::")[-1] + "(" + ("Gas" if "Gas" in (g.get("sig") or "") + (g.get("cls") or "") else "") + ")", "water")
+        chk.instance(r_ph, "%s@%d" % (g["n"], g["l"]), sample=dict(gas=g["q"], gas_line=g["l"], water_line=sib[0]["l"], identical_under_renaming=a_txt == b_txt))
+        if a_txt != b_txt:
+            diff = sorted(k_ for k_ in set(a_txt) | set(b_txt) if a_txt.get(k_) != b_txt.get(k_))
+            chk.violation(r_ph, "%s@%d" % (g["n"], g["l"]), "%s (line %d) and its water counterpart (line %d) do not read corresponding restart fields: %s" % (g["q"], g["l"], sib[0]["l"], "; ".join("`%s` is set from %s on the gas side and from %s on the water side" % (k_, ga.get(k_), wa.get(k_)) for k_ in diff)), sib[0]["file"], sib[0]["l"])
+    if pairs_found < 3:
+        raise core.AnalysisBroken("Group.cpp: fewer than three gas/water sibling pairs found (%d)" % pairs_found)
+
     for k_ in deferred:
         if k_ not in used_def:
             chk.info(r_u, "tables/c05_deferred.json: entry %s::%s not needed on this tree" % k_)
